@@ -297,8 +297,13 @@ pub fn build(m: &WDwarf) -> Built {
                 };
                 let mut lp = w::LineProgram::new(enc, gimli::LineEncoding::default(), mk(b"/wd".to_vec()), None, mk(files.first().cloned().unwrap_or_else(|| b"main.c".to_vec())), None);
                 let d = lp.default_directory();
-                for f in files {
-                    fids.push(lp.add_file(mk(f.clone()), d, None));
+                // embedded source for the first file only (version 5, string-table forms): the others get the
+                // writer's "no source" placeholder, which must resolve to an empty string when read back
+                let with_source = kind != 0 && files.len() >= 2 && u.entries.len() % 2 == 0;
+                lp.file_has_source = with_source;
+                for (fi, f) in files.iter().enumerate() {
+                    let info = if with_source && fi == 0 { Some(w::FileInfo { timestamp: 0, size: 0, md5: [0; 16], source: Some(mk(b"int main;\n".to_vec())) }) } else { None };
+                    fids.push(lp.add_file(mk(f.clone()), d, info));
                 }
                 lp
             }
@@ -802,6 +807,43 @@ pub fn check_written(m: &WDwarf, expect: &Expect, cx: &mut Ctx, tag: &str) -> R 
             }
         }
         ensure_eq!(k, order.len(), format!("{}/readback/entry-count", tag), "unit {}", ui);
+        // the unit's file table: every name, directory and embedded source resolves; the names are the requested ones
+        if let (Some(files), Some(prog)) = (&mu.files, unit.line_program.as_ref()) {
+            let hdr = prog.header();
+            let v5 = mu.version >= 5;
+            let mut names: Vec<Vec<u8>> = Vec::new();
+            for (fi, fe) in hdr.file_names().iter().enumerate() {
+                let name = dwarf.attr_string(&unit, fe.path_name()).map_err(|e| Failure { sig: format!("{}/readback/file-name", tag), detail: format!("unit {} file #{}: {:?}", ui, fi, e) })?;
+                names.push(name.slice().to_vec());
+                // (before version 5 directory 0 is the unit's DW_AT_comp_dir, which the request may lack)
+                match fe.directory(hdr) {
+                    Some(dir) => {
+                        dwarf.attr_string(&unit, dir).map_err(|e| Failure { sig: format!("{}/readback/file-directory", tag), detail: format!("unit {} file #{}: {:?}", ui, fi, e) })?;
+                    }
+                    None => ensure!(!v5 && fe.directory_index() == 0, format!("{}/readback/file-directory", tag), "unit {} file #{}: no directory entry {}", ui, fi, fe.directory_index()),
+                }
+                if let Some(src) = fe.source() {
+                    let text = dwarf.attr_string(&unit, src).map_err(|e| Failure { sig: format!("{}/readback/file-source", tag), detail: format!("unit {} file #{}: {:?}", ui, fi, e) })?;
+                    let first = names.last().map(|n| Some(n) == files.first()).unwrap_or(false);
+                    if !first {
+                        cx.label("file without embedded source in a table that has the source column");
+                    }
+                    let want: &[u8] = if first { b"int main;\n" } else { b"" };
+                    ensure_eq!(text.slice(), want, format!("{}/readback/file-source", tag), "unit {} file #{}", ui, fi);
+                }
+            }
+            // version 5 tables start with the primary file (index 0), earlier ones list only the added files
+            let mut want: Vec<Vec<u8>> = Vec::new();
+            if v5 {
+                want.push(files.first().cloned().unwrap_or_else(|| b"main.c".to_vec()));
+            }
+            for f in files {
+                if !want.contains(f) {
+                    want.push(f.clone());
+                }
+            }
+            ensure_eq!(names, want, format!("{}/readback/file-names", tag), "unit {}", ui);
+        }
         units.push(unit);
     }
     // ---- pass 2: attributes by meaning
